@@ -721,7 +721,8 @@ func ReplayFile(path string) int {
 	for _, is := range issues {
 		fmt.Printf("issue: %s — %s\n", is.Class, is.Detail)
 	}
-	if hasClass(issues, rep.Class) {
+	// C14's history comparison tags its classes; the judge itself reports the plain class
+	if hasClass(issues, rep.Class) || hasClass(issues, strings.TrimSuffix(rep.Class, ":after-other-project")) {
 		fmt.Printf("VIOLATION property=%s replay=%s\n", rep.Property, path)
 		return 1
 	}
